@@ -87,16 +87,16 @@ theorem validator_source_shape : BR.Gen.validate_regexps = ["^[a-f0-9]{64}$"] :=
 visited stdout, stderr and the output files — inlining what the request asks for and the budget
 allows, moving other inline bytes to the CAS — every field still stands for the bytes it stood for
 (inline, or under the digest it carries), the CAS has only grown and every entry sits under its true
-digest.  Hypotheses: no SHA-256 collision, a consistent CAS, and stored fields whose digest is the
-digest of their inline bytes (what the upload path verified). -/
+digest.  Hypotheses: no SHA-256 collision and a consistent CAS.  (Inline bytes stored next to a
+digest that is not theirs — only the HTTP front end accepts such a message — stay inline: finding
+F36; before its repair this theorem needed the hypothesis that no stored field is like that.) -/
 theorem inlining_preserves_contents {α} (o : BR.Inline.Ops α) (max : Int) (hn : BR.Inline.NoColl o)
     (items : List (Bool × Bool × BR.Inline.Field α)) (cas : BR.Inline.Cas α) (fs : List (BR.Inline.Field α)) (sf : Int) (c : BR.Inline.Cas α)
-    (h : BR.Inline.pipeline o max items 0 cas = some (fs, sf, c)) (hc : BR.Inline.CasOk o cas)
-    (hcons : ∀ it ∈ items, BR.Inline.Consistent o it.2.2) :
+    (h : BR.Inline.pipeline o max items 0 cas = some (fs, sf, c)) (hc : BR.Inline.CasOk o cas) :
     fs.length = items.length ∧
     (∀ p ∈ items.zip fs, ∀ a, BR.Inline.content cas p.1.2.2 = some a → BR.Inline.content c p.2 = some a) ∧
     BR.Inline.CasOk o c ∧ (∀ d a, cas.get d = some a → c.get d = some a) := by
-  obtain ⟨h1, h2, h3, h4, _⟩ := BR.Inline.pipeline_spec o max hn items 0 cas fs sf c h hc hcons
+  obtain ⟨h1, h2, h3, h4, _⟩ := BR.Inline.pipeline_spec o max hn items 0 cas fs sf c h hc
   exact ⟨h3, h4, h1, h2⟩
 
 /-- **the inlining budget**: with the de-inlining uploads succeeding, the bytes inlined into one
@@ -106,7 +106,7 @@ theorem inlining_keeps_budget {α} (o : BR.Inline.Ops α) (hn : BR.Inline.NoColl
     (h : BR.Inline.pipeline o BR.Inline.maxInlineSize items 0 cas = some (fs, sf, c)) (hc : BR.Inline.CasOk o cas)
     (hcons : ∀ it ∈ items, BR.Inline.Consistent o it.2.2) (hput : ∀ it ∈ items, it.2.1 = true) :
     sf ≤ BR.Inline.maxInlineSize :=
-  (BR.Inline.pipeline_spec o _ hn items 0 cas fs sf c h hc hcons).2.2.2.2 hput (by decide)
+  (BR.Inline.pipeline_spec o _ hn items 0 cas fs sf c h hc).2.2.2.2 (fun it hit => ⟨hput it hit, hcons it hit⟩) (by decide)
 
 /-- **as the request asks and the budget allows**: a requested field that fits comes back inline
 with its contents; a field that is not requested, or does not fit, comes back by (true) digest with
@@ -122,6 +122,20 @@ theorem not_requested_is_by_digest {α} (o : BR.Inline.Ops α) (max : Int) (want
     ∃ s, BR.Inline.maybeInline o max true want f sofar cas = some s ∧ s.field.raw = none ∧ s.sofar = sofar ∧
       (∀ a, f.raw = some a → s.field.dig = some (BR.Inline.trueDigest o a) ∧ s.cas.get (BR.Inline.trueDigest o a) ≠ none) :=
   BR.Inline.maybeInline_deinlines o max want f sofar cas hw hf
+
+/-- **inline bytes next to a foreign digest are never dropped** (finding F36): a field that is not
+inlined on request keeps its bytes inline when the digest stored next to them is not their digest -/
+theorem foreign_digest_keeps_inline_bytes {α} (o : BR.Inline.Ops α) (max : Int) (putOk want : Bool) (f : BR.Inline.Field α)
+    (sofar : Int) (cas : BR.Inline.Cas α) (a : α) (d : BR.Inline.Digest) (hr : f.raw = some a) (hd : f.dig = some d)
+    (hne : d ≠ BR.Inline.trueDigest o a) :
+    ∃ s, BR.Inline.maybeInline o max putOk want f sofar cas = some s ∧ s.field.raw = some a := by
+  have hfo : BR.Inline.foreign o f a = true := by simp [BR.Inline.foreign, hd, hne]
+  unfold BR.Inline.maybeInline
+  split
+  · simp only [hr, hfo, if_true]
+    exact ⟨_, rfl, hr⟩
+  · simp only [hr]
+    exact ⟨_, rfl, hr⟩
 
 /-! non-vacuity of the inlining theorems: stdout stored inline (2 MiB) and an output file of 2 MiB by
 digest, both requested: the first stays inline, the second does not fit next to it -/
@@ -144,4 +158,5 @@ example : validate (ActionResult.mk [some ⟨"out/f", some ⟨okHash, 3⟩, fals
 #print axioms inlining_keeps_budget
 #print axioms inline_request_honoured
 #print axioms not_requested_is_by_digest
+#print axioms foreign_digest_keeps_inline_bytes
 end BR.Props.C11
